@@ -26,11 +26,15 @@ import (
 	"github.com/lestrrat-go/jwx/v2/jws"
 	v2 "github.com/nuts-foundation/nuts-node/vcr/pe/schema/v2"
 	"strings"
+	"time"
 
 	"github.com/PaesslerAG/jsonpath"
 	"github.com/dlclark/regexp2"
 	"github.com/nuts-foundation/go-did/vc"
 )
+
+// patternMatchTimeout is the maximum time matching a single value against a filter's pattern may take.
+const patternMatchTimeout = time.Second
 
 // ErrUnsupportedFilter is returned when a filter uses unsupported features.
 var ErrUnsupportedFilter = errors.New("unsupported filter")
@@ -545,6 +549,9 @@ func matchFilter(filter Filter, value interface{}) (bool, interface{}, error) {
 		if err != nil {
 			return false, nil, err
 		}
+		// regexp2 is a backtracking engine and definitions can come from remote parties: bound the time a single match may take
+		// (catastrophic patterns like ^([a-z]+)+\d$ otherwise run for minutes on a 30 character value)
+		re.MatchTimeout = patternMatchTimeout
 		match, err := re.FindStringMatch(value.(string))
 		if err != nil {
 			return false, nil, err
